@@ -1030,7 +1030,12 @@ fn check_range(c: &SrcCase, env: &Env, st: &mut Stats) -> Verdict {
             spliced.push_str(&src[end..]);
             let sroot = syn::parse(&spliced);
             let kind = deepest_exact(&root, start, end);
+            // single-homing: what whole-document formatting gets wrong as well belongs to C04 / C01
+            let full = env.f.format(src, &c.cfg);
             if sroot.erroneous() {
+                if full.ok().is_some_and(|o| !syn::wf(o)) {
+                    return Verdict::skip("deferred_to_C04:whole-document-output-erroneous-too");
+                }
                 return Verdict::fail(
                     format!("C13:splice-erroneous:{kind}"),
                     format!("replacing {start}..{end} ({kind}) with {:?} gives a text with syntax errors", syn::clip(&text, 200)),
@@ -1043,10 +1048,17 @@ fn check_range(c: &SrcCase, env: &Env, st: &mut Stats) -> Verdict {
                     st.label(&format!("node:{kind}"));
                     Verdict::Pass { nontrivial: text != src[start..end] }
                 }
-                Some((i, d)) => Verdict::fail(
+                Some((i, d)) => {
+                    if let Some(o) = full.ok() {
+                        let c = oracle::normal::normalize(&syn::parse(o), NormOpts::default());
+                        if oracle::first_diff(&a, &c).is_some() {
+                            return Verdict::skip("deferred_to_C01:whole-document-tree-differs-too");
+                        }
+                    }
+                    Verdict::fail(
                     format!("C13:splice-tree-differs:{kind}:{}", norm_sig(&a, &b, i)),
                     format!("replacing {start}..{end} ({kind}) with {:?}: {d}", syn::clip(&text, 200)),
-                ),
+                )}
             }
         }
     }
